@@ -76,6 +76,18 @@ def gen(rng, k, dll=None, big=False, presend=False):
         # the stack has other FD transfers open (to addresses nobody owns; they time out) when it starts this one, so this
         # one runs under a session number other than 0: every frame of it must carry that number
         sc['presend'] = rng.choice([1, 2, 3, 7])
+    if k % 9 == 5 and not forced and not big and not directed_grant and size != 1785 and size < 65536:
+        # a responder that SHRINKS its grants during the transfer (4, 2, 3, 1, ...) while more packets remain: every window is the
+        # one of its own clear-to-send
+        sc['role'], sc['bam'] = role, bam = 'stack-originator', False
+        plan['windows'] = rng.choice([[4, 2, 3, 1], [5, 1, 2], [3, 2, 1], [8, 3]])
+        plan['holds'] = [0]
+        sc['max_cmdt'] = max_cmdt = rng.choice([255, 8, rng.randint(8, 255)])
+        sc['size'] = size = unit * rng.randint(14, 22) - rng.randint(0, unit - 1)
+        n = (size + unit - 1) // unit
+        if sc['pf'] >= 240:
+            sc['pf'], sc['ps'] = 0xD0, None
+        sc['ps'] = None
     if presend and role == 'stack-originator' and 'presend' not in sc and rng.random() < 0.3:
         # the ECU has just sent a multi-packet message of the same kind to the same destination from ANOTHER of its addresses
         # (completed before this one starts): every frame of this one carries this one's source address
